@@ -45,7 +45,13 @@ const burstRounds = 12
 // source tokens are long and share their first 70 bytes (API keys, bearer tokens): distinct tokens are distinct sources
 var srcPrefix = strings.Repeat("tenant-", 10)
 
-func srcName(tok int64) string { return srcPrefix + strconv.FormatInt(tok, 10) }
+// ... except source 2, whose token is the empty string (the identifying header is there, without a value)
+func srcName(tok int64) string {
+	if tok == 2 {
+		return ""
+	}
+	return srcPrefix + strconv.FormatInt(tok, 10)
+}
 
 type clReq struct {
 	tok, amount int64
@@ -74,7 +80,7 @@ func newCLRunner(max int64, lateWrap bool, stock bool) (*clRunner, error) {
 	r := &clRunner{seen: map[int64]int64{}, entered: make(chan int64, 1)}
 	r.handler = func() http.Handler {
 		return http.HandlerFunc(func(w http.ResponseWriter, req *http.Request) {
-			tok, _ := strconv.ParseInt(strings.TrimPrefix(req.Header.Get("X-Source"), srcPrefix), 10, 64)
+			tok, _ := strconv.ParseInt(req.Header.Get("X-Tok"), 10, 64) // (the harness's own label; the limiter reads X-Source)
 			amount, _ := strconv.ParseInt(req.Header.Get("X-Amount"), 10, 64)
 			r.mu.Lock()
 			r.seen[tok] += amount
@@ -103,10 +109,11 @@ func newCLRunner(max int64, lateWrap bool, stock bool) (*clRunner, error) {
 		})
 	}
 	extract := utils.ExtractorFunc(func(req *http.Request) (string, int64, error) {
-		s := req.Header.Get("X-Source")
-		if s == "" {
+		v, present := req.Header["X-Source"]
+		if !present || len(v) == 0 {
 			return "", 0, fmt.Errorf("no source")
 		}
+		s := v[0] // may be empty: a source like any other
 		amount, _ := strconv.ParseInt(req.Header.Get("X-Amount"), 10, 64)
 		return s, amount, nil
 	})
@@ -156,6 +163,7 @@ func (r *clRunner) occupy(tok int64) {
 	r.decoySeen[tok] = true
 	req := httptest.NewRequest(http.MethodGet, "http://example.com/", nil)
 	req.Header.Set("X-Source", srcName(tok))
+	req.Header.Set("X-Tok", strconv.FormatInt(tok, 10))
 	req.Header.Set("X-Amount", "1")
 	r.decoyWG.Add(1)
 	go func() {
@@ -180,6 +188,7 @@ func (r *clRunner) arrive(tok, amount int64) (status int64, seen int64, rq *clRe
 	req = hlib.Vary(req, r.nreq)
 	if tok >= 0 {
 		req.Header.Set("X-Source", srcName(tok))
+		req.Header.Set("X-Tok", strconv.FormatInt(tok, 10))
 	}
 	req.Header.Set("X-Amount", strconv.FormatInt(amount, 10))
 	ctx, cancel := context.WithCancel(contextWith(req, rq.release))
@@ -223,6 +232,7 @@ func (r *clRunner) burst(tok int64, k int) (admitted int64, maxSeen int64, probl
 		rqs = append(rqs, rq)
 		req := httptest.NewRequest(http.MethodGet, "http://example.com/", nil)
 		req.Header.Set("X-Source", srcName(tok))
+		req.Header.Set("X-Tok", strconv.FormatInt(tok, 10))
 		req.Header.Set("X-Amount", "1")
 		req = req.WithContext(contextWith(req, rq.release))
 		rec := httptest.NewRecorder()
@@ -334,7 +344,7 @@ func (c *connlimitComp) Gen(rng *rand.Rand, idx int, tier string, targeted bool)
 			tok := int64(rng.Intn(nsrc))
 			amount := int64(1)
 			if !unit {
-				amount = 1 + int64(rng.Intn(3))
+				amount = int64(rng.Intn(4)) // an extractor may weigh a request 0 (a probe): admitted while the source is below its limit
 			}
 			h.Ops = append(h.Ops, []int64{0, tok, amount})
 			if cur[tok] < max {
@@ -409,7 +419,7 @@ func (c *connlimitComp) Run(h *hlib.History) ([]hlib.Mon, bool) {
 		case len(op) == 3 && op[0] == 0 && !wrapped:
 			// no handler yet: an admitted request fails in the nil handler (a panic) and its slot goes back
 			tok, amount := op[1], op[2]
-			if amount < 1 {
+			if amount < 0 {
 				return nil, false
 			}
 			status, seen, rq := r.arrive(tok, amount)
@@ -446,7 +456,7 @@ func (c *connlimitComp) Run(h *hlib.History) ([]hlib.Mon, bool) {
 			h.Obs = append(h.Obs, []int64{})
 		case len(op) == 3 && op[0] == 0:
 			tok, amount := op[1], op[2]
-			if amount < 1 {
+			if amount < 0 {
 				return nil, false
 			}
 			if amount != 1 {
